@@ -175,7 +175,9 @@ theorem quiet_step (q : Quirks) (hq : AlwaysDrains q) (s : State) (e : Event) (h
     simp only [step]
     split
     · exact quiet_runBatch q hq now c _ _ (by simp [h])
-    · exact h
+    · split
+      · exact quiet_runBatch q hq now c _ _ (by simp [h])
+      · exact h
   | timeouts now =>
     show (iter (expireOne now) s.registry.length s).wakeQ = []
     rw [iter_expireOne_wakeQ]; exact h
